@@ -84,7 +84,7 @@ fn gen_schema(r: &mut Rng) -> SchemaDesc {
         let fields = (0..nf)
             .map(|j| {
                 let t = r.pick(&all_named).clone();
-                FieldDesc { name: format!("i{k}f{j}"), ty: wrap(r, &t), cc: rand_cc(r, 7) }
+                FieldDesc { name: format!("i{k}f{j}"), ty: wrap(r, &t), cc: rand_cc(r, 7), ..Default::default() }
             })
             .collect();
         idesc.push((i.clone(), fields, vec![]));
@@ -95,7 +95,7 @@ fn gen_schema(r: &mut Rng) -> SchemaDesc {
         let mut fields: Vec<FieldDesc> = (0..nf)
             .map(|j| {
                 let t = if k == 0 && j == 0 { "Int".to_string() } else { r.pick(&all_named).clone() };
-                FieldDesc { name: format!("f{j}"), ty: wrap(r, &t), cc: rand_cc(r, 6) }
+                FieldDesc { name: format!("f{j}"), ty: wrap(r, &t), cc: rand_cc(r, 6), ..Default::default() }
             })
             .collect();
         let mut implements = vec![];
@@ -106,7 +106,7 @@ fn gen_schema(r: &mut Rng) -> SchemaDesc {
                 for f in ifields.iter() {
                     // the object's own hint for an interface field may differ from the interface's
                     let cc = if r.chance(1, 2) { f.cc } else { rand_cc(r, 5) };
-                    fields.push(FieldDesc { name: f.name.clone(), ty: f.ty.clone(), cc });
+                    fields.push(FieldDesc { name: f.name.clone(), ty: f.ty.clone(), cc, ..Default::default() });
                 }
             }
         }
@@ -325,7 +325,7 @@ mod fixed {
 
     pub fn desc() -> agv_harness::genschema::SchemaDesc {
         use agv_harness::genschema::{FieldDesc as F, TypeDesc as T};
-        let f = |n: &str, t: &str| F { name: n.into(), ty: t.into(), cc: Default::default() };
+        let f = |n: &str, t: &str| F { name: n.into(), ty: t.into(), ..Default::default() };
         agv_harness::genschema::SchemaDesc {
             types: vec![
                 T::Object {
